@@ -378,6 +378,13 @@ func (e *Explorer) Run() *Found {
 			var h [16]byte
 			if ph, ok := in.(phased); ok {
 				v = safeCheck(func() *Viol { return ph.Do(o) }, props, o.String())
+				if v != nil && !e.wants(v) && v.Class != "panic" {
+					// the operation's own oracle failed for another property: this property's
+					// observer comparison is still evaluated on the resulting state
+					if v2 := safeCheck(ph.Content, props, "Size/Keys/Values after "+o.String()); e.wants(v2) {
+						v = v2
+					}
+				}
 				if v == nil {
 					k = in.Key() // fingerprint before any observer ran on the new state
 					h = hash16(k)
@@ -528,6 +535,11 @@ func (e *Explorer) ReplayOne(path []Op, last *Op) *Found {
 		if ph, ok := in.(phased); ok {
 			o := *last
 			v = safeCheck(func() *Viol { return ph.Do(o) }, props, o.String())
+			if v != nil && !e.wants(v) && v.Class != "panic" {
+				if v2 := safeCheck(ph.Content, props, "Size/Keys/Values after "+o.String()); e.wants(v2) {
+					v = v2
+				}
+			}
 			if v == nil {
 				k := in.Key()
 				v = safeCheck(ph.Content, props, "Size/Keys/Values after "+o.String())
